@@ -217,7 +217,7 @@ def run_tpcn(case):
 
     res = Res()
     d, K, nu, skind, mukind, sigma = case["d"], case["K"], case["nu"], case["S"], case["mu"], case["sigma"]
-    G = _grid(d, 5 if d <= 2 else 3)
+    G = _grid(d, 5 if d <= 2 else (3 if d == 3 else 2))
     n = len(G)
     S = _sigma_matrix(d, skind)
     mu = np.full(d, 0.5) if mukind == "centre" else np.full(d, 0.2)
@@ -506,35 +506,35 @@ def plan(ctx):
     # ---- A
     A = []
     vals = [0.0, -1.0, -3.0]
-    for M in (4, 5, 6):
+    for M in ((4, 5, 6, 7) if th else (4, 5, 6)):
         ls = list(itertools.product(vals, repeat=M))
         if not th and M == 6:
             ls = ls[ctx.seed % 3::3]
-        chunks = [ls[i::8] for i in range(8)] if len(ls) > 60 else [ls]
+        chunks = [ls[i::(24 if M == 7 else 8)] for i in range(24 if M == 7 else 8)] if len(ls) > 60 else [ls]
         for bnd in "hpr":
             for K in (1, 2):
                 for ch in chunks:
                     if ch:
                         A.append({"kind": "lattice", "kernel": "rwm", "shape": [M], "bnd": [bnd], "K": K, "landscapes": [list(l) for l in ch], "betas": [0.25, 1.0]})
     fam2 = []
-    for shape in ([3, 3], [4, 3]):
-        M = shape[0] * shape[1]
+    for shape in (([3, 3], [4, 3], [4, 4], [5, 3], [3, 3, 2]) if th else ([3, 3], [4, 3])):
+        M = int(np.prod(shape))
         fam = [[0.0] * M]
         for s in range(14 if th else 6):
-            fam.append([vals[(i * (s + 2) + s + (i // shape[1])) % 3] for i in range(M)])
-        for bnd in itertools.product("hpr", repeat=2):
+            fam.append([vals[(i * (s + 2) + s + (i // shape[-1])) % 3] for i in range(M)])
+        for bnd in itertools.product("hpr", repeat=len(shape)):
             A.append({"kind": "lattice", "kernel": "rwm", "shape": shape, "bnd": list(bnd), "K": 1 if not th else 2, "landscapes": fam, "betas": [0.25, 1.0]})
     ctx.explore("A-rwm-lattice-chain", A)
     # ---- B
     B = []
-    for d in (1, 2, 3):
+    for d in ((1, 2, 3, 4) if th else (1, 2, 3)):
         for K in (1, 2):
-            for nu in (0.5, 1.0, 5.0, 1e6):
+            for nu in ((0.5, 1.0, 2.0, 5.0, 30.0, 1e6) if th else (0.5, 1.0, 5.0, 1e6)):
                 for S in ("iso", "corr", "scales"):
                     if d == 1 and S == "corr":
                         continue
                     for mu in ("centre", "offset"):
-                        for sigma in (0.1, 0.5, 0.99):
+                        for sigma in ((0.01, 0.1, 0.5, 0.9, 0.99) if th else (0.1, 0.5, 0.99)):
                             if not th and d == 3 and (hash((K, nu, S, mu, sigma)) + ctx.seed) % 3:
                                 continue
                             B.append({"kind": "tpcn", "d": d, "K": K, "nu": nu, "S": S, "mu": mu, "sigma": sigma})
